@@ -26,7 +26,7 @@ def contains_local(tree, l):
 
 def r3_make_all(ctx):
     rid = "C13.R3"
-    ctx.rule(rid, "make_all_uci: every make is pushed on one local list; the Err arm takes that list back in reverse inside a loop before returning; Ok only from normal loop exit", floor=4)
+    ctx.rule(rid, "make_all_uci: every make is pushed on one local list; the Err arm takes that list back in reverse inside a loop before returning; Ok only from normal loop exit (or, snapshot style: the Err arm restores every field Bitboard::make writes)", floor=1)
     f = ctx.fn(rid, BB + "make_all_uci")
     cfg, ex = Cfg(f), Exprs(f)
     makes, unmakes, pushes = [], [], []
@@ -42,6 +42,32 @@ def r3_make_all(ctx):
         elif k.endswith("::Vec::push") or k.endswith("::push"):
             pushes.append(b)
     if not makes or not unmakes:
+        # snapshot style: the Err path assigns saved copies back to the board's fields. It must cover every field
+        # Bitboard::make writes (directly or through the players), otherwise a rejected list leaves that field changed
+        from . import c03
+        made = c03.written_fields(ctx, B.MAKE, rid) if hasattr(c03, "written_fields") else set()
+        top = set()
+        for n in made:
+            top.add({"occupancy": None, "king_side_castle": None, "queen_side_castle": None}.get(n, n))
+        top.discard(None)
+        top |= {"white", "black"}
+        restored = set()
+        err_blocks = [b for b in sorted(cfg.reach) for st in f["blocks"][b]["stmts"] if st["dst"] is not None and st["dst"]["l"] == 0 and not st["dst"]["p"] and st["rv"]["op"] == "agg" and st["rv"].get("variant") == "Err"]
+        for b in sorted(cfg.reach):
+            if not any(cfg.dominates(b, e) or b == e for e in err_blocks):
+                continue
+            for st in f["blocks"][b]["stmts"]:
+                d = st["dst"]
+                if d is not None and d["p"] and "deref" in d["p"] and d["l"] == 1:
+                    names = [e["name"] for e in d["p"] if isinstance(e, dict) and "name" in e]
+                    if names:
+                        restored.add(names[0])
+        if restored and err_blocks:
+            missing = sorted(top - restored)
+            ctx.ob(rid, "Err-exit|snapshot-restores-every-field-make-writes", not missing,
+                   "" if not missing else "make_all_uci rolls a rejected list back by restoring saved copies of %s, but Bitboard::make also writes %s: after a rejected list that field keeps the value of the last accepted move (a phantom en-passant square, for example)" % (sorted(restored), missing),
+                   ctx.where(f), sample={"restored": sorted(restored), "written_by_make": sorted(top)})
+            return
         ctx.lost(rid, "make_all_uci has no make/unmake call (roll-back idiom not recognised)")
         return
     # (a) every make is followed, without a branch in between, by a push of the same move on a local Vec
@@ -317,3 +343,66 @@ def r5_selection(ctx):
         ctx.ob(rid, "%s|selection-reads-source-target-promotion" % name, not bad,
                "" if not bad else "%s: the predicate that matches a UCI string to a move has %d accepting path(s) that never look at %s of the candidate: a string without (or with any) promotion letter then selects a promotion move"
                % (name, len(bad), bad[0]), ctx.where(f), sample={"function": name, "accepting_paths": len(sets), "fields": sorted(sets[0])})
+
+
+def r6_ok_means_probed(ctx):
+    """acceptance equals legality only if every accepted move went through the legality probe"""
+    rid = "C13.R6"
+    ctx.rule(rid, "find_uci and uci_to_pgn answer Ok only for a move they have made and found valid: every path to an Ok result passes Bitboard::make, then Bitboard::is_valid with a positive outcome (a fast path that accepts a pseudo-legal move unprobed lets pinned pieces and en-passant discoveries through)", floor=2)
+    from ..cfg import Cfg
+    for name in ("find_uci", "uci_to_pgn"):
+        f = ctx.fn(rid, BB + name)
+        cfg, ex = Cfg(f), Exprs(f)
+        oks = []
+        for b in sorted(cfg.reach):
+            if f["blocks"][b]["cleanup"]:
+                continue
+            for s in f["blocks"][b]["stmts"]:
+                d = s["dst"]
+                if d is not None and d["l"] == 0 and not d["p"] and s["rv"]["op"] == "agg" and s["rv"].get("variant") == "Ok":
+                    oks.append((b, s["line"]))
+        makes = {b for b in cfg.reach if f["blocks"][b]["term"]["k"] == "call" and f["blocks"][b]["term"]["callee"].get("key") == BB + "make"}
+        # blocks entered on the positive edge of a switch on is_valid()
+        valid_edges = set()
+        for b in sorted(cfg.reach):
+            t = f["blocks"][b]["term"]
+            if t["k"] == "switch":
+                d = ex.operand(t["discr"])
+                neg = False
+                while d[0] == "un" and d[1] == "Not":
+                    d, neg = d[2], not neg
+                if d[0] == "call" and d[1] == BB + "is_valid":
+                    pos = t["targets"][0][1] if neg else t["otherwise"]
+                    valid_edges.add((b, pos))
+        if not oks or not makes or not valid_edges:
+            ctx.lost(rid, "%s: Ok exits / make call / branch on is_valid" % name)
+            continue
+
+        def reach_without(target, forbid_blocks, need_edge):
+            """is `target` reachable from the entry without entering forbid_blocks and without crossing need_edge?"""
+            seen, work = set(), [0]
+            while work:
+                x = work.pop()
+                if x in seen or x in forbid_blocks:
+                    continue
+                seen.add(x)
+                if x == target:
+                    return True
+                for y in cfg.succ[x]:
+                    if f["blocks"][y]["cleanup"] or (x, y) in need_edge:
+                        continue
+                    work.append(y)
+            return False
+        for b, line in oks:
+            unprobed = reach_without(b, makes, set()) or reach_without(b, set(), valid_edges)
+            ctx.ob(rid, "%s|ok-only-after-make-and-is_valid" % name, not unprobed,
+                   "" if not unprobed else "%s can answer Ok for a move it has not made and validated (a path to the Ok result avoids Bitboard::make or the positive outcome of is_valid): acceptance is no longer equivalent to legality" % name,
+                   ctx.where(f, line))
+
+
+_run_before_r6 = run
+
+
+def run(ctx):
+    _run_before_r6(ctx)
+    r6_ok_means_probed(ctx)
